@@ -4,6 +4,7 @@ CONSTANTS
   Combos <- NoCombos
   ClsSet <- Classes
   OrderSet <- NoOrders
+  PreSet <- NoOrders
 INIT TraceInit
 NEXT TraceNext
 CHECK_DEADLOCK FALSE
